@@ -1498,7 +1498,9 @@ def _initial_coords(ck, R):
                     ck.missing(rule, 'initial centre coordinates `%s`' % u(c)[:100])
                     continue
                 it, tg = l.iter, l.target
+                counter = None          # position of the centre in the index list (enumerate), not a frame
                 if isinstance(it, ast.Call) and call_name(it) == 'enumerate' and len(it.args) == 1 and isinstance(tg, ast.Tuple) and len(tg.elts) == 2:
+                    counter = tg.elts[0].id if isinstance(tg.elts[0], ast.Name) else None
                     it, tg = it.args[0], tg.elts[1]
                 itx = fi.xu(it, stop=(R.MI,))
                 if not (isinstance(e, ast.Call) and _last(call_name(e)) == 'distribute_frame'):
@@ -1533,9 +1535,24 @@ def _initial_coords(ck, R):
                 n += 1
                 if got == (R.X, rk, fr):
                     ck.ok(rule, mod, c, u(e)[:160], 'initial MPI coordinates: frame <frame> of X on <rank> for each (rank, frame) in the indices')
-                elif got[0] == R.X and set(got[1:]) == {rk, fr}:
-                    ck.bad(rule, mod, c, PAM, u(e)[:160], 'for a centre index (rank, frame) the coordinate must be '
-                           'distribute_frame(data=%s, owner_rank=%s, world_index=%s)' % (R.X, rk, fr))
+                elif got[0] == R.X:
+                    # the role is located (the frame fetched for one entry of the index list); which frame of which
+                    # rank is requested is a function of the variables this loop binds: the pair (rank, frame) and,
+                    # with enumerate, the POSITION of the centre in the list.  Any pure function of those other than
+                    # (owner=rank, index=frame) fetches another frame than the centre: swapped roles, the position
+                    # instead of the frame, an offset ...; anything involving other names is not decided.
+                    bound = {rk, fr} | ({counter} if counter else set())
+                    pair = ast.Tuple(elts=[fi.expand(ow), fi.expand(wi)], ctx=ast.Load())
+                    v = classify(pair, ['(%s, %s)' % (rk, fr)], scope=bound)
+                    what = ''
+                    if counter and got[2] == counter:
+                        what = (': `%s` is the position of the centre in `%s` (the enumerate counter), not its frame index `%s` - '
+                                'the coordinate list then holds frames 0..k-1 of the data instead of the medoids, the frames '
+                                'that lose their centre are re-assigned against non-centres and the returned centres are not '
+                                'the frames named by the returned indices' % (counter, R.MI, fr))
+                    ck.decide(v, rule, mod, c, PAM, u(e)[:160], '',
+                              'for a centre index (rank, frame) the coordinate must be distribute_frame(data=%s, owner_rank=%s, '
+                              'world_index=%s); found owner_rank=%s, world_index=%s%s' % (R.X, rk, fr, got[1], got[2], what))
                 else:
                     ck.missing(rule, 'initial MPI centre coordinates `%s`' % u(e)[:100])
             continue
@@ -1621,6 +1638,66 @@ def d2_wiring(ck, R):
 # ---------------------------------------------------------------------------
 # D4 hybrid handover
 
+_PH = 'kcres__'          # placeholder prefix: kcres__<field> stands for <k-centers result>.<field>
+
+
+def _same_value_forms(x):
+    """Spellings that hand over the SAME sequence of values as `x` (an equal copy or a view of all of it)."""
+    return [x, 'list(%s)' % x, '%s.copy()' % x, 'np.asarray(%s)' % x, 'np.asanyarray(%s)' % x, 'np.ascontiguousarray(%s)' % x,
+            'copy.copy(%s)' % x, 'copy.deepcopy(%s)' % x, '%s[:]' % x, '%s[0:]' % x, '[_C for _C in %s]' % x, '[*%s]' % x,
+            'np.asarray(list(%s))' % x, 'list(%s.copy())' % x, 'list(%s[:])' % x, 'np.asarray(%s).copy()' % x,
+            'np.copy(%s)' % x]
+
+
+def _value_over_roots(fi, e, root_of, use, depth=8, ignore_mutation=False):
+    """The value of the expression `e` (original nodes of `fi`) as an expression over ROOTS: every local name
+    with a single reaching definition `n = <expr>` is replaced by that expression, recursively, each operand
+    being resolved AT ITS OWN definition site (so a chain of rebindings of one name `n = f(n)` is followed, which
+    FuncInfo.expand refuses because the operand is rebound between definition and use).  `root_of(node)` gives
+    the placeholder name of a node that denotes a root (a value that does not change: the caller checks that);
+    a name that cannot be resolved (several definitions, a parameter, a loop variable) stays as it is, so that a
+    closed-over-the-roots test fails for it.  None if a name on the chain is mutated in place on a path to `use`
+    (the defining expression is then not its value) - unless `ignore_mutation`: then the result is the value the
+    object had when it was bound."""
+    fail = []
+
+    def sub(x, d):
+        r = root_of(x)
+        if r is not None:
+            return ast.copy_location(ast.Name(id=r, ctx=ast.Load()), x)
+        if isinstance(x, ast.Name):
+            if isinstance(x.ctx, ast.Load) and x.id in fi.rd.locals and d > 0:
+                try:
+                    defs = fi.defs_of_use(x)
+                except Exception:
+                    defs = ()
+                if len(defs) == 1:
+                    site = next(iter(defs))
+                    v = fi.def_value(site, x.id) if isinstance(site, (ast.Assign, ast.AnnAssign)) else None
+                    if v is not None:
+                        if not ignore_mutation and any(fi.cfg.reachable(m, use) or m is use for m in fi._mutated_in_place(x.id)):
+                            fail.append(x.id)
+                            return ast.copy_location(ast.Name(id=x.id, ctx=ast.Load()), x)
+                        return sub(v, d - 1)
+            return ast.copy_location(ast.Name(id=x.id, ctx=x.ctx), x)
+        if not isinstance(x, ast.AST) or isinstance(x, (ast.expr_context, ast.operator, ast.unaryop, ast.boolop, ast.cmpop)):
+            return x
+        new = type(x)()
+        for f in x._fields:
+            val = getattr(x, f, None)
+            if isinstance(val, list):
+                setattr(new, f, [sub(y, d) for y in val])
+            elif isinstance(val, ast.AST):
+                setattr(new, f, sub(val, d))
+            else:
+                setattr(new, f, val)
+        return ast.copy_location(new, x)
+    out = sub(e, depth)
+    if fail:
+        return None
+    ast.fix_missing_locations(out)
+    return out
+
 def d4_hybrid(ck, seed=None):
     rule = 'C09.D4.handover'
     mod = ck.repo.mod(HY)
@@ -1678,6 +1755,22 @@ def d4_hybrid(ck, seed=None):
             return unpacked[ex.id]
         return None
 
+    def root_of(e):
+        """Placeholder name for an ORIGINAL node that denotes a field of the k-centers result."""
+        if resname is not None and isinstance(e, (ast.Attribute, ast.Subscript)) and isinstance(e.value, ast.Name) \
+                and e.value.id == resname and isinstance(e.ctx, ast.Load):
+            try:
+                if fi.defs_of_use(e.value) != {res_assign}:
+                    return None
+            except Exception:
+                return None
+            f = field_of(e, None)
+            return _PH + f if isinstance(f, str) and (not order or f in order) else None
+        if isinstance(e, ast.Name) and e.id in unpacked:
+            f = field_of(e, e)
+            return _PH + f if isinstance(f, str) else None
+        return None
+
     for p, field in want.items():
         a = bind.get(p)
         if a is None:
@@ -1693,12 +1786,36 @@ def d4_hybrid(ck, seed=None):
             # not expandable: stored into between the k-centers stage and the hand-over?
             stores = [s for s in fi._mutated_in_place(n.id) if fi.cfg.reachable(s, stc) or s is stc]
             sv = _stable_value(fi, n)
-            if stores and sv is not None and field_of(fi.expand(sv), None) == field:
+            E0 = _value_over_roots(fi, a, root_of, stc, ignore_mutation=True) if stores else None
+            bound_to_field = E0 is not None and classify(E0, _same_value_forms(_PH + field), scope={_PH + field})[0] == 'match'
+            if stores and ((sv is not None and field_of(fi.expand(sv), None) == field) or bound_to_field):
                 ck.bad(rule, mod, stores[0], 'hybrid', construct,
                        why + ': `%s` stores into it before the hand-over' % u(stores[0])[:80])
                 continue
         if got is None and resname is not None and isinstance(n, ast.Name) and n.id == resname and fi.defs_of_use(n) == {res_assign}:
             got = '<the whole result>'
+        if got is None:
+            # the value handed over as a function of the FIELDS of the k-centers result: definitions are followed back
+            # through rebindings of the same name (`ci = f(ci)`), which the expansion of temporaries does not do
+            E = _value_over_roots(fi, a, root_of, stc)
+            if E is not None:
+                ph = {_PH + f for f in order if isinstance(f, str)} | {_PH + field}
+                v2 = classify(E, _same_value_forms(_PH + field), scope=ph)
+                shown = u(canon(E)).replace(_PH, '<k-centers result>.')
+                if v2[0] == 'match':
+                    got = field
+                elif isinstance(E, ast.Name) and E.id in ph:
+                    got = E.id[len(_PH):]
+                elif v2[0] == 'near' and not any(isinstance(x, ast.keyword) for x in ast.walk(E)):
+                    site = next(iter(fi.defs_of_use(n))) if isinstance(n, ast.Name) and len(fi.defs_of_use(n)) == 1 else c
+                    site = site if isinstance(site, ast.AST) else c
+                    ck.bad(rule, mod, site, 'hybrid', '%s=%s (= %s)' % (p, u(a), shown),
+                           why + ': what the sweeps receive is `%s`, another function of the k-centers result. The sweeps take '
+                           'centre j of `%s` to be the centre of the frames labelled j whose distances are the supplied ones; a '
+                           're-ordered / filtered / shifted copy of one of the three arrays breaks that correspondence: '
+                           'frames are re-assigned against the wrong coordinates, an accepted proposal overwrites the index of '
+                           'another cluster, and the result is no longer bounded by the k-centers cost' % (shown, pCI))
+                    continue
         v = ('match', {}) if got == field else ('near', 1, field) if got is not None else ('far', 0, None)
         ck.decide(v, rule, mod, c, 'hybrid', construct, 'k-medoids starts from the k-centers %s unchanged' % field, why)
     # the result object itself is not changed in between
